@@ -213,7 +213,10 @@ func extractArgumentsType(f *ast.FuncDecl) ([]string, bool) {
 	var fields []*ast.Field
 	if f.Recv != nil {
 		if len(f.Recv.List) != 1 {
-			panic("Expect only one receiver; please fix panicparse's code")
+			// go/parser accepts zero or several receivers, only go/types rejects
+			// them. Such a source cannot be what built the binary; report no known
+			// parameter type instead of crashing.
+			return nil, false
 		}
 		// If it is an object receiver (vs a pointer receiver), its address is not
 		// printed in the stack trace so it needs to be ignored.
